@@ -484,14 +484,27 @@ impl Session {
                 let cb: Box<dyn Fn(&mut Axecutor, SupportedMnemonic) -> Result<HookResult, Box<dyn std::error::Error>>> =
                     Box::new(move |ax: &mut Axecutor, _| {
                         let rip = ax.reg_read_64(SR::RIP)?;
+                        // "tryreg": the hook itself tries to register (a built-in syscall handler and a mnemonic hook); both must be
+                        // refused while a hook runs, and a refused call must not leave anything behind
+                        let suffix = if outcome == "tryreg" {
+                            fn noop(_: &mut Axecutor, _: SupportedMnemonic) -> Result<HookResult, Box<dyn std::error::Error>> {
+                                Ok(HookResult::Unhandled)
+                            }
+                            let r1 = ax.handle_syscalls(vec![Syscall::Exit]).is_err();
+                            let r2 = ax.hook_before_mnemonic_native(SupportedMnemonic::Nop, &noop).is_err();
+                            format!(":rej{}{}", r1 as u8, r2 as u8)
+                        } else {
+                            String::new()
+                        };
                         HOOK_LOG.with(|l| {
                             l.borrow_mut().push(format!(
-                                "{}:{}:{:x}:{}:{}",
+                                "{}:{}:{:x}:{}:{}{}",
                                 id,
                                 phase_s,
                                 rip,
                                 ax.verif_executed_instructions_count(),
-                                ax.verif_hooks_running() as u8
+                                ax.verif_hooks_running() as u8,
+                                suffix
                             ))
                         });
                         if let Some((r, v)) = edit {
